@@ -771,6 +771,246 @@ def check_subs_returns(ctx: Check, tree: Tree) -> None:
                 None if ok else f"decorators {decs}: callers routinely modify the set they get (`symbols = expr.free_symbols; symbols |= ...`)")
 
 
+# ---------------------------------------------------------------------------------------------------------------------
+# R-MULTISET: a pool is a sequence, not a set - repeated values count as often as they are listed
+# ---------------------------------------------------------------------------------------------------------------------
+
+M_PAIRS, M_PAIR, M_MAP, M_POOLS, M_POOL, M_VALUE, M_SYMS, M_SYM, M_COMBIS, M_COMBI = "pairs", "pair", "map", "pools", "pool", "value", "symbols", "symbol", "combinations", "combination"
+_ELEM = {M_PAIRS: M_PAIR, M_POOLS: M_POOL, M_POOL: M_VALUE, M_SYMS: M_SYM, M_MAP: M_SYM, M_COMBIS: M_COMBI, M_COMBI: M_VALUE}
+_SEQ_OF = {v: k for k, v in _ELEM.items() if k != M_MAP and k != M_COMBI}
+_KEEP = {"tuple", "list", "sorted", "reversed", "iter", "sympy.sympify", "sympy.core.sympify._sympify", "sympy.Tuple", "sympy.S"}
+_DEDUP = {"set", "frozenset", "dict.fromkeys", "sympy.FiniteSet", "numpy.unique", "collections.OrderedDict.fromkeys"}
+_COUNTING = {"collections.Counter", "Counter"}
+
+
+class _Roles:
+    """Flow-insensitive roles of the locals of one function (what part of the index pools a name holds).  Only
+    definite roles are recorded: a name with two different roles has none."""
+
+    def __init__(self, tree: Tree, fn: FuncInfo, params: dict[str, str]):
+        self.tree, self.fn = tree, fn
+        self.env: dict[str, str | None] = dict(params)
+        self.conflict: set[str] = set()
+        for _ in range(4):
+            before = dict(self.env)
+            for n in walk_function(fn.node, nested=False):
+                if isinstance(n, ast.Assign):
+                    for t in n.targets:
+                        self.bind(t, self.role(n.value))
+                elif isinstance(n, ast.AnnAssign) and n.value is not None:
+                    self.bind(n.target, self.role(n.value))
+                elif isinstance(n, (ast.For, ast.comprehension)):
+                    self.bind(n.target, _ELEM.get(self.role(n.iter) or ""), self.pair_of(n.iter))
+            if before == self.env:
+                break
+
+    def pair_of(self, it: ast.AST) -> tuple[str, str] | None:
+        r = self.role(it)
+        if r == M_PAIRS:
+            return M_SYM, M_POOL
+        if isinstance(it, ast.Call) and isinstance(it.func, ast.Name) and it.func.id == "zip" and len(it.args) == 2:
+            a, b = (self.role(x) for x in it.args)
+            ea, eb = _ELEM.get(a or ""), _ELEM.get(b or "")
+            if ea and eb:
+                return ea, eb
+        if isinstance(it, ast.Call) and isinstance(it.func, ast.Name) and it.func.id == "enumerate" and it.args:
+            e = _ELEM.get(self.role(it.args[0]) or "")
+            if e:
+                return "", e
+        return None
+
+    def bind(self, target: ast.AST, role: str | None, pair: tuple[str, str] | None = None) -> None:
+        if isinstance(target, ast.Name):
+            if role is None:
+                return
+            if target.id in self.conflict:
+                return
+            old = self.env.get(target.id)
+            if old is not None and old != role:
+                self.conflict.add(target.id)
+                self.env[target.id] = None
+            else:
+                self.env[target.id] = role
+        elif isinstance(target, (ast.Tuple, ast.List)) and len(target.elts) == 2:
+            if pair is None and role == "unzipped":
+                pair = (M_SYMS, M_POOLS)
+            if pair is None and role == M_PAIR:
+                pair = (M_SYM, M_POOL)
+            if pair is not None:
+                for t, r in zip(target.elts, pair):
+                    if isinstance(t, (ast.Tuple, ast.List)) and r == M_PAIR:
+                        self.bind(t, M_PAIR)
+                    else:
+                        self.bind(t, r or None)
+
+    def role(self, e: ast.AST | None) -> str | None:
+        if e is None:
+            return None
+        if isinstance(e, ast.Starred):
+            return self.role(e.value)
+        if isinstance(e, ast.Name):
+            return self.env.get(e.id)
+        text = unparse(e)
+        if text in {"self.indices", "self.args[1:]"}:
+            return M_PAIRS
+        if isinstance(e, ast.Subscript):
+            base = self.role(e.value)
+            if isinstance(e.slice, ast.Slice):
+                return base if base in {M_PAIRS, M_POOLS, M_POOL, M_SYMS} else None
+            if base == M_PAIR and isinstance(e.slice, ast.Constant):
+                return {0: M_SYM, 1: M_POOL}.get(e.slice.value)
+            if base == M_MAP:
+                return M_POOL
+            return _ELEM.get(base or "") if base != M_MAP else None
+        if isinstance(e, ast.Tuple) and len(e.elts) == 2 and self.role(e.elts[0]) == M_SYM and self.role(e.elts[1]) == M_POOL:
+            return M_PAIR
+        if isinstance(e, (ast.ListComp, ast.GeneratorExp)):
+            sub = self
+            return _SEQ_OF.get(sub.role(e.elt) or "")
+        if isinstance(e, ast.DictComp):
+            if self.role(e.key) == M_SYM and self.role(e.value) == M_POOL:
+                return M_MAP
+            return None
+        if isinstance(e, ast.Call):
+            if isinstance(e.func, ast.Attribute) and not e.args:
+                base = self.role(e.func.value)
+                if base == M_MAP:
+                    return {"items": M_PAIRS, "values": M_POOLS, "keys": M_SYMS, "copy": M_MAP}.get(e.func.attr)
+                if e.func.attr == "copy":
+                    return base
+            q = self.tree.callee(e, self.fn) or unparse(e.func)
+            if q in _KEEP and len(e.args) == 1:
+                return self.role(e.args[0])
+            if q == "dict" and len(e.args) == 1 and self.role(e.args[0]) in {M_PAIRS, M_MAP}:
+                return M_MAP
+            if q == "itertools.product" and len(e.args) == 1 and isinstance(e.args[0], ast.Starred) and self.role(e.args[0]) == M_POOLS:
+                return M_COMBIS
+            if q == "zip" and len(e.args) == 1 and isinstance(e.args[0], ast.Starred) and self.role(e.args[0]) == M_PAIRS:
+                return "unzipped"
+            if q == "zip" and len(e.args) == 2 and self.role(e.args[0]) == M_SYMS and self.role(e.args[1]) == M_POOLS:
+                return M_PAIRS
+        return None
+
+
+def _dedup_sites(tree: Tree, fn: FuncInfo, roles: _Roles):
+    """(node, text, container name or None) for every construct that keeps each distinct pool value once."""
+    for n in walk_function(fn.node, nested=False):
+        if isinstance(n, ast.Call):
+            q = tree.callee(n, fn) or unparse(n.func)
+            if q in _DEDUP and n.args and roles.role(n.args[0]) == M_POOL:
+                yield n, f"`{unparse(n)[:60]}` keeps each distinct value of the pool once"
+        elif isinstance(n, ast.SetComp) and roles.role(n.elt) == M_VALUE:
+            yield n, f"set comprehension `{unparse(n)[:60]}` over the values of a pool"
+        elif isinstance(n, ast.DictComp) and roles.role(n.key) == M_VALUE:
+            yield n, f"dictionary `{unparse(n)[:60]}` keyed by the values of a pool"
+        elif isinstance(n, ast.Set) and any(isinstance(x, ast.Starred) and roles.role(x) == M_POOL for x in n.elts):
+            yield n, f"set display `{unparse(n)[:60]}` of the values of a pool"
+
+
+def _keyed_containers(fn: FuncInfo, roles: _Roles) -> dict[str, ast.AST]:
+    """Locals that are filled under a pool value as key: D[value] = ..., D.add(value), D.setdefault(value, ...)."""
+    out: dict[str, ast.AST] = {}
+    for n in walk_function(fn.node, nested=False):
+        if isinstance(n, (ast.Assign, ast.AugAssign)):
+            for t in n.targets if isinstance(n, ast.Assign) else [n.target]:
+                if isinstance(t, ast.Subscript) and isinstance(t.value, ast.Name) and roles.role(t.slice) == M_VALUE:
+                    out.setdefault(t.value.id, n)
+        elif isinstance(n, ast.Call) and isinstance(n.func, ast.Attribute) and isinstance(n.func.value, ast.Name) and n.func.attr in {"add", "setdefault"} and n.args and roles.role(n.args[0]) == M_VALUE:
+            out.setdefault(n.func.value.id, n)
+    return out
+
+
+def _harmless_use(node: ast.AST) -> bool:
+    """A use of a de-duplicated container that cannot lose a multiplicity: lookup, membership test, filling."""
+    from ..loader import parent
+
+    p = parent(node)
+    if isinstance(p, ast.Subscript) and p.value is node:
+        return True
+    if isinstance(p, ast.Compare) and node in p.comparators and all(isinstance(o, (ast.In, ast.NotIn)) for o in p.ops):
+        return True
+    if isinstance(p, ast.Attribute) and p.value is node and p.attr in {"get", "add", "setdefault", "update", "__contains__", "pop"}:
+        return True
+    return False
+
+
+def check_multiplicity(ctx: Check, tree: Tree) -> None:
+    """Along evaluate / cleanup / __new__ / doit and the package functions they reach, the values of a pool are never
+    collapsed to the distinct ones: a set / dict keyed by pool values may serve as a memo (lookup, membership), but
+    nothing may iterate, count or return it - the sum runs over the pool as listed (duplicates included)."""
+    cls = tree.cls(POOLSUM)
+    graph = tree.call_graph()
+    work: list[tuple[FuncInfo, dict[str, str]]] = []
+    for name in ("__new__", "evaluate", "cleanup", "doit"):
+        m = cls.methods.get(name)
+        if m is None:
+            continue
+        params = {}
+        if name == "__new__" and m.node.args.vararg is not None:
+            params[m.node.args.vararg.arg] = M_PAIRS
+        work.append((m, params))
+    seen: dict[str, dict[str, str]] = {}
+    analysed = 0
+    pool_names = 0
+    while work:
+        fn, params = work.pop()
+        if fn.qual in seen and seen[fn.qual] == params:
+            continue
+        if fn.qual in seen:  # called with different roles: keep only the agreeing ones
+            params = {k: v for k, v in params.items() if seen[fn.qual].get(k, v) == v}
+        seen[fn.qual] = params
+        roles = _Roles(tree, fn, params)
+        analysed += 1
+        pool_names += sum(1 for r in roles.env.values() if r in {M_POOL, M_POOLS, M_PAIRS, M_MAP, M_VALUE})
+        counting = any(isinstance(n, ast.Call) and ((tree.callee(n, fn) or unparse(n.func)) in _COUNTING or (isinstance(n.func, ast.Attribute) and n.func.attr == "count")) for n in walk_function(fn.node, nested=False))
+        findings: list[tuple[ast.AST, str]] = []
+        named: dict[str, tuple[ast.AST, str]] = {}
+        from ..loader import parent
+
+        for node, text in _dedup_sites(tree, fn, roles):
+            p = parent(node)
+            if isinstance(p, ast.Assign) and len(p.targets) == 1 and isinstance(p.targets[0], ast.Name) and p.value is node:
+                named[p.targets[0].id] = (node, text)
+            elif not _harmless_use(node):
+                findings.append((node, text + " and the result is used as the sequence of values"))
+        for nm, st in _keyed_containers(fn, roles).items():
+            named.setdefault(nm, (st, f"`{nm}` is filled under the values of a pool as key (`{unparse(st)[:50]}`)"))
+        for nm, (node, text) in named.items():
+            for use in walk_function(fn.node, nested=False):
+                if isinstance(use, ast.Name) and use.id == nm and isinstance(use.ctx, ast.Load) and not _harmless_use(use):
+                    from ..loader import parent as _p
+
+                    findings.append((use, f"{text}; `{unparse(_p(use) or use)[:60]}` then reads it as a collection - repeated pool values count once"))
+                    break
+        key = f"{fn.qual}::multiset"
+        if findings and counting:
+            raise AnalysisError(f"{fn.qual}: pool values are collapsed to the distinct ones and counted - cannot decide whether the multiplicities are restored")
+        ctx.verdict(not findings, "R-MULTISET", key, tree.loc(findings[0][0] if findings else fn.node),
+                    f"{fn.qual}: the values of an index pool are never collapsed to the distinct ones", [t for _, t in findings] or None)
+        # follow calls into the package with the roles of the arguments
+        for call, callee in tree.calls_in(fn, nested=False):
+            if not callee or callee not in tree.funcs:
+                continue
+            target = tree.funcs[callee]
+            names = target.params
+            if target.cls is not None and names and names[0] in {"self", "cls"} and isinstance(call.func, ast.Attribute):
+                names = names[1:]
+            bound = {}
+            for a, pn in zip(call.args, names):
+                r = roles.role(a)
+                if r:
+                    bound[pn] = r
+            for kw in call.keywords:
+                r = roles.role(kw.value)
+                if kw.arg and r:
+                    bound[kw.arg] = r
+            if bound or callee.startswith(POOLSUM + "."):
+                work.append((target, bound))
+    ctx.info("R-MULTISET", tree.loc(cls.node), f"read {analysed} functions with {pool_names} names that hold pools / pool values: {sorted(seen)}")
+    if analysed < 3 or pool_names < 2:
+        raise AnalysisError(f"R-MULTISET: only {analysed} functions / {pool_names} pool-holding names read (evaluate, cleanup, __new__ confirmed)")
+
+
 def run(ctx: Check, tree: Tree) -> None:
     ctx.decided += [
         "R-BINDER: every expression class that removes bound symbols from free_symbols guards substitution of those symbols",
@@ -778,6 +1018,7 @@ def run(ctx: Check, tree: Tree) -> None:
         "R-FREE: the subtrahend of PoolSum.free_symbols is exactly the index symbols",
         "R-BINDSUBST: PoolSum substitutes its own index symbols into the summand with the binding-aware subs(), never with xreplace()",
         "R-DROP: on every path of cleanup() an index is retained, substituted by its single value, or compensated by its pool size",
+        "R-MULTISET: along __new__ / evaluate / cleanup / doit and the package functions they call, the values of a pool are never collapsed to the distinct ones (set, dict key) and then read as a collection",
     ]
     ctx.not_decided += ["evaluation for arbitrary summands (SymPy's subs on the summand)", "three-level nesting inside HelicityModel.expression"]
     ctx.assumptions += ["sympy.Basic.subs consults _eval_subs before descending into args; ExprWithLimits (Sum, Integral) guards its own bound variables"]
@@ -785,6 +1026,7 @@ def run(ctx: Check, tree: Tree) -> None:
     ctx.section(check_free_symbols, ctx, tree)
     ctx.section(check_evaluate, ctx, tree)
     ctx.section(check_cleanup, ctx, tree)
+    ctx.section(check_multiplicity, ctx, tree)
     ctx.section(check_binding_aware_substitution, ctx, tree)
     ctx.section(check_external_expansion, ctx, tree)
     ctx.section(check_subs_returns, ctx, tree)
